@@ -166,10 +166,50 @@ def oracle(ctx):
     ctx.counters['nontrivial'] = nt
     ctx.sample({'template': ps[0][0]['src'], 'vars': ps[0][0]['vars'], 'invalid': ps[0][1], 'reached': ps[0][3]})
     # D-19a
+    file_pages(ctx)
     r = pipeline.run_impl({'src': '<p tal:content="a | bad +"/>', 'vars': [['a', 1]], 'cfg': {'strict': False}})
     if r.get('out') != '<p>1</p>':
         ctx.violation('an invalid later alternative raises although it is never reached', {'src': '<p tal:content="a | bad +"/>'},
                       expected='<p>1</p>', actual=r, finding='D-19a' if r.get('cls') == 'ExpressionError' else None)
+
+
+def file_pages(ctx):
+    """file templates that `load:` a library holding an invalid expression at a site the page never reaches: a strict page must
+    fail on it, a non-strict page must render - each exactly as it does alone, whatever other template objects of the same
+    directory (with the other setting) exist or were used before"""
+    import os
+    import shutil
+    import tempfile
+    from chameleon import PageTemplateFile
+    d = tempfile.mkdtemp(prefix='c19_')
+    n = 0
+    try:
+        with open(os.path.join(d, 'lib.pt'), 'w') as f:
+            f.write('<html><p metal:define-macro="ok">fine</p>\n<p metal:define-macro="bad" tal:content="1 +">x</p></html>')
+        with open(os.path.join(d, 'page.pt'), 'w') as f:
+            f.write('<div tal:define="lib load: lib.pt"><x metal:use-macro="lib.macros[\'ok\']"/></div>')
+
+        def use(t):
+            try:
+                return t()
+            except Exception as e:
+                return 'raised %s: %s' % (type(e).__name__, str(e).split('\n')[0][:60])
+        alone = {s: use(PageTemplateFile(os.path.join(d, 'page.pt'), strict=s)) for s in (True, False)}
+        if alone[False] != '<div><p>fine</p></div>' or not alone[True].startswith('raised ExpressionError'):
+            ctx.violation('a page that loads a library with an invalid, unreached expression: strict must fail, non-strict must render',
+                          {'files': 'page.pt -> load: lib.pt'}, expected={'strict': 'ExpressionError', 'non-strict': '<div><p>fine</p></div>'}, actual=alone)
+        for order in ((True, False), (False, True), (False, True, False), (True, False, True)):
+            pages = [PageTemplateFile(os.path.join(d, 'page.pt'), strict=s) for s in order]      # all alive at once
+            got = [use(t) for t in pages]
+            ctx.count('evaluations', len(order))
+            n += 1
+            want = [alone[s] for s in order]
+            if got != want:
+                ctx.violation('the strict setting of one file template leaks into another template object of the same directory (through what '
+                              'they load)', {'files': 'page.pt -> load: lib.pt', 'strict_settings_in_order': list(order)}, expected=want, actual=got)
+    finally:
+        shutil.rmtree(d, ignore_errors=True)
+    return n
 
 
 def lax_location(case):
